@@ -605,6 +605,7 @@ SPECS["C05"] = {
 }
 
 SPECS["C19"] = {
+    "design_ref": "DESIGN.md section 0.6 (C19 as built; supersedes sections 5/6 for C19)",
     "explanation": "The real ECALFunctionAdapter.Run (argument count/kind checks, numeric conversion, the reflective call, result conversion, trailing-error handling and the "
                    "recover around all of it) is executed on a table of 25 synthetic Go functions covering every numeric parameter kind, string, bool, interface, slice, "
                    "variadic, multi-result, trailing-error and panicking signatures x argument vectors of length 0..MAXARGS over the ECAL value universe (numbers full-width "
